@@ -358,6 +358,10 @@ class Connection(object):
             try:
                 tx_size = sock.send(data)
                 self._logger.debug('Sent %d octets', tx_size)
+            except (BlockingIOError, ssl.SSLWantWriteError, ssl.SSLWantReadError):
+                # the socket cannot take more right now: keep the octets
+                # and wait for it to become writable
+                return True
             except socket.error as err:
                 self._logger.error('Failed to "send" on socket: %s', err)
                 tx_size = None
